@@ -221,7 +221,7 @@ class Program:
                "setitem", "setattr", "setitem_scalar", "setitem_wrong_length", "delitem", "delattr", "pop", "popitem", "colnames",
                "copy", "deepcopy", "clear", "aggregate", "count", "lod_roundtrip", "json_roundtrip", "pandas_roundtrip",
                "arrow_roundtrip", "new_kwargs", "new_from_columns", "group_by", "split", "compare_eq", "to_string", "file_roundtrip",
-               "new_mixed_lengths", "grouped_lengths_modify", "export_probe", "compare_probe"]
+               "new_mixed_lengths", "grouped_lengths_modify", "export_probe", "compare_probe", "ior_on_empty"]
         op = rng.choice(ops)
         nrow = canon.frame_nrow(df)
         names = list(dict.keys(df))
@@ -467,6 +467,26 @@ class Program:
                 self.trace.append(f"{i}:setitem_wrong_length:{how}")
                 self.ok_ops["setitem_wrong_length"] = self.ok_ops.get("setitem_wrong_length", 0) + 1
                 return
+            elif op == "ior_on_empty":
+                # |= on a data frame without columns: the new columns have to agree with EACH OTHER (broadcast or rejected, never stored ragged)
+                n = rng.choice([2, 3, 4])
+                vals = {"a": list(range(n)), "b": rng.choice([7, [7], list(range(n)), list(range(n + 1)), "s"]), "c": rng.choice([1.5, list(range(n)), [1, 2, 3, 4, 5, 6]])}
+                items = list(vals.items())
+                rng.shuffle(items)
+                fr = di.DataFrame()
+                if rng.random() < 0.5 and names:
+                    fr = df.copy()
+                    for n_ in list(dict.keys(fr)):
+                        fr.pop(n_)               # emptied in place
+                try:
+                    fr.__ior__(dict(items))
+                    self.mon.count("ior-on-empty:accepted")
+                except Exception:
+                    self.mon.count("ior-on-empty:rejected")
+                self.mon.check_frame(fr, ("ior_on_empty", "receiver"), self.builtin)
+                self.trace.append(f"{i}:ior_on_empty")
+                self.ok_ops["ior_on_empty"] = self.ok_ops.get("ior_on_empty", 0) + 1
+                return
             elif op == "new_mixed_lengths":
                 # construction from values of different lengths, in every argument position: length-one values (scalar, list, array,
                 # vector, a column of a one-row frame) are broadcast to the longest, anything else is rejected
@@ -664,6 +684,8 @@ class Program:
                 post = ("colnames", new, names)
             elif op in ("copy", "deepcopy", "clear"):
                 call = lambda: getattr(df, op)()
+                if op == "clear":
+                    post = ("cleared", None, None)
             elif op in ("aggregate", "count"):
                 cols = self.pick_cols(df, 1, 2)
                 if not cols or nrow == 0: return
@@ -812,6 +834,13 @@ class Program:
                 order_before = [n for n in names if n != name]
                 if list(dict.keys(df)) != order_before:
                     self.mon.violate("C01", f"{op}:order-changed", f"{desc}: {list(dict.keys(df))} expected {order_before}")
+            elif kind == "cleared":
+                # whichever object clear() emptied (a new one or the receiver): a name that is no longer a key is no longer an attribute
+                for o in (df, out):
+                    if isinstance(o, di.DataFrame):
+                        for n_ in names:
+                            if n_ not in dict.keys(o):
+                                self.removed(o, n_)
             elif kind == "union-order":
                 if isinstance(out, di.DataFrame) and list(dict.keys(out)) != name:
                     self.mon.violate("C01", "rbind:column-order-not-first-seen", f"{desc}: columns {list(dict.keys(out))}, first-seen order over the operands is {name}")
